@@ -291,6 +291,23 @@ S("ord_obj", ["a"], "return ord(a)", [P_ORD], "__Pyx_PyObject_Ord")
 S("ord_str", ["str a"], "return ord(a)", [[p for p in P_ORD if p.startswith("'")] + ["None"]], "__Pyx_PyObject_Ord")
 S("ord_bytes", ["bytes a"], "return ord(a)", [[p for p in P_ORD if p.startswith("b'")] + ["None"]], "__Pyx_PyObject_Ord")
 S("chr_obj", ["a"], "return chr(a)", [P_CHR], "PyUnicode_FromOrdinal")
+# ---- builtin type calls with one argument (optimised: float(x) goes through __Pyx_PyObject_AsDouble and the
+#      str/bytes parsers, int(x)/bool(x)/str(x) through type-specific shortcuts)
+P_FLOATARG = ["'1.5'", "' 2 '", "'1e3'", "'-1_0.5'", "'1__0'", "'_1'", "'1_'", "'inf'", "'-inf'", "'+Inf'", "'nan'", "'-NaN'",
+              "'infinity'", "'-Infinity'", "'INFINITY '", "'infinityx'", "'Infinity1'", "'infinit'", "'infx'", "'nanx'",
+              "'in'", "'na'", "''", "' '", "'1.5x'", "'0x10'", "'\\u0661.5'", "'1' * 50 + '.5'", "'0.' + '1' * 45",
+              "b'1.5'", "b'inf'", "b'infinity'", "b'infinityx'", "b'nan '", "b''", "b'1_0'", "bytearray(b'2.5')",
+              "bytearray(b'infinityy')", "3", "-7", "2 ** 70", "True", "1.5", "None", "[1]", "L3([1])", "1j"]
+S("float_obj", ["a"], "return float(a)", [P_FLOATARG], None)
+S("float_str", ["str a"], "return float(a)", [[p for p in P_FLOATARG if p.startswith("'")] + ["None"]], None)
+S("float_bytes", ["bytes a"], "return float(a)", [[p for p in P_FLOATARG if p.startswith("b'")] + ["None"]], None)
+S("float_repr_obj", ["a"], "return repr(float(a))", [P_FLOATARG], None)
+P_INTARG = ["'12'", "' 12 '", "'1_2'", "'1__2'", "'0x10'", "'0b11'", "'12x'", "''", "'\\u0661'", "b'12'", "b'1_2'", "b''",
+            "bytearray(b'7')", "3", "-7", "2 ** 70", "True", "1.5", "-1.5", "1e30", "float('inf')", "float('nan')", "None",
+            "[1]", "1j"]
+S("int_obj", ["a"], "return int(a)", [P_INTARG], None)
+S("bool_obj", ["a"], "return bool(a)", [P_INTARG + ["[]", "{}", "()", "0.0", "-0.0", "''"]], None)
+S("str_obj", ["a"], "return str(a)", [P_INTARG], None)
 # ---- isinstance
 for nm, texpr in [("list", "list"), ("tup2", "(list, tuple)"), ("many", "(int, str, bytes, float, dict, set, frozenset, bytearray)"),
                   ("nested", "(list, (dict, (str,)))"), ("bool", "bool"), ("object", "object"), ("type", "type"),
